@@ -275,9 +275,36 @@ def name_eq_atom(e, text: str) -> bool:
     return False
 
 
-def name_fact(node, text: str, stop=None) -> Optional[bool]:
+def xfacts(repo, fi: "FuncInfo", node):
+    """facts() with (a) a bare local that was assigned once from a boolean expression and (b) a call of a
+    one-expression predicate helper (own class / collaborator / static) replaced by that expression, the
+    arguments substituted for the parameters."""
+    out = []
+    for e, p in facts_resolved(node, fi.node):
+        exp = None
+        if isinstance(e, ast.Call):
+            h = resolve_any_call(repo, fi, e)
+            if h is not None and h != fi:
+                rets = [r for r in walk(h.node) if isinstance(r, ast.Return) and r.value is not None]
+                if len(rets) == 1 and isinstance(rets[0].value, (ast.Compare, ast.BoolOp, ast.UnaryOp)):
+                    params = method_params(h)
+                    amap = {params[i]: a for i, a in enumerate(e.args) if i < len(params)}
+                    amap.update({k.arg: k.value for k in e.keywords if k.arg})
+                    exp = clone(rets[0].value, lambda n: clone(amap[n.id]) if isinstance(n, ast.Name) and n.id in amap else None)
+        if exp is not None:
+            out.extend(atoms(exp, p))
+        else:
+            out.append((e, p))
+    return out
+
+
+def _fs(node, stop, xf):
+    return xfacts(xf[0], xf[1], node) if xf is not None else facts(node, stop)
+
+
+def name_fact(node, text: str, stop=None, xf=None) -> Optional[bool]:
     """Polarity with which `<x>.name == text` is known at node (None: unknown)."""
-    for e, pol in facts(node, stop):
+    for e, pol in _fs(node, stop, xf):
         if name_eq_atom(e, text):
             return pol
         if isinstance(e, ast.Compare) and len(e.ops) == 1 and isinstance(e.ops[0], ast.NotEq):
@@ -287,9 +314,9 @@ def name_fact(node, text: str, stop=None) -> Optional[bool]:
     return None
 
 
-def path_fact(node, path: str, stop=None) -> Optional[bool]:
+def path_fact(node, path: str, stop=None, xf=None) -> Optional[bool]:
     """Polarity with which the truthiness of exactly `path` is known at node."""
-    for e, pol in facts(node, stop):
+    for e, pol in _fs(node, stop, xf):
         if ap(e) == path:
             return pol
         nt = is_none_test(e)
@@ -303,9 +330,9 @@ def path_fact(node, path: str, stop=None) -> Optional[bool]:
     return None
 
 
-def call_fact(node, attr: str, stop=None) -> Optional[bool]:
+def call_fact(node, attr: str, stop=None, xf=None) -> Optional[bool]:
     """Polarity with which the result of a call to `*.attr(...)` is known at node."""
-    for e, pol in facts(node, stop):
+    for e, pol in _fs(node, stop, xf):
         if isinstance(e, ast.Call) and call_attr(e) == attr:
             return pol
     return None
@@ -453,6 +480,51 @@ def table_writers(repo, field="unacked_reliable"):
     return out
 
 
+def removal_helpers(repo, fi: FuncInfo):
+    """Calls in fi of a method (own class / collaborator) that removes the entry keyed by one of its parameters
+    from the unacked table: [(call, helper, removal store, key argument, conditions in the helper that are not
+    mere presence tests of the entry)]."""
+    out = []
+    for c in calls(fi.node, into_defs=True):
+        h = resolve_any_call(repo, fi, c)
+        if h is None or h == fi:
+            continue
+        params = method_params(h)
+        for st in stores(h.node, into_defs=False):
+            if not is_table(repo, st.path):
+                continue
+            if st.kind == "delitem":
+                k = st.target.slice
+            elif st.kind == "mutcall" and st.method == "pop" and st.node.args:
+                k = st.node.args[0]
+            else:
+                continue
+            if not (isinstance(k, ast.Name) and k.id in params):
+                continue
+            i = params.index(k.id)
+            arg = c.args[i] if i < len(c.args) else next((kw_.value for kw_ in c.keywords if kw_.arg == k.id), None)
+            if arg is None:
+                continue
+            # entry locals: assigned from table.get(key) / table[key]
+            entry = {s_.path for s_ in stores(h.node, into_defs=False) if s_.kind == "assign" and s_.value is not None
+                     and "." not in s_.path and any(is_table(repo, ap(x)) for x in ast.walk(s_.value)
+                                                    if isinstance(x, (ast.Attribute, ast.Name)))}
+            bad = []
+            for e, pol in facts(st.node, h.node):
+                nt = is_none_test(e)
+                if nt and nt[0] in entry and ((nt[1] and not pol) or (not nt[1] and pol)):
+                    continue
+                if ap(e) in entry and pol:
+                    continue
+                if isinstance(e, ast.Compare) and len(e.ops) == 1 and isinstance(e.ops[0], (ast.In, ast.NotIn)) \
+                        and ap(e.left) == k.id and is_table(repo, ap(e.comparators[0])) and \
+                        (isinstance(e.ops[0], ast.In) == pol):
+                    continue
+                bad.append(("" if pol else "not ") + norm(e))
+            out.append((c, h, st, arg, bad))
+    return out
+
+
 # ============================================================================ shared: collect_acks flow
 
 class AckFlow(Explorer):
@@ -463,6 +535,8 @@ class AckFlow(Explorer):
         super().__init__()
         self.fi, self.msg, self.tables = fi, msg, set(tables)
         self.keys: List[ast.AST] = []
+        self.repo = None
+        self.cond_removals: List[str] = []
 
     def _is_table(self, path: Optional[str]) -> bool:
         return bool(path) and path.split(".")[-1] in self.tables
@@ -550,6 +624,24 @@ class AckFlow(Explorer):
                         return frozenset({"blocks"})
                 return frozenset()
             seen_any = False
+            if self.repo is not None:
+                inside = {id(x) for x in ast.walk(ast.Module(body=s.body, type_ignores=[]))}
+                for c_, h_, st_h, arg, bad in removal_helpers(self.repo, self.fi):
+                    if id(c_) not in inside:
+                        continue
+                    key = arg
+                    if isinstance(key, ast.Name):
+                        kv = single_assign(ast.Module(body=s.body, type_ignores=[]), key.id)
+                        key = kv if kv is not None else key
+                    if isinstance(key, ast.Tuple) and len(key.elts) == 2:
+                        es = elem_sources(key.elts[1])
+                        if es and self._unguarded(c_, s) and not bad:
+                            st.data["popped"] = st.data["popped"] | es
+                            seen_any = True
+                        if es:
+                            self.keys.append(key)
+                            self.cond_removals.extend(bad)
+                            seen_any = True
             for n in walk(ast.Module(body=s.body, type_ignores=[])):
                 key = None
                 if isinstance(n, ast.Call) and call_attr(n) == "pop" and isinstance(n.func, ast.Attribute) \
@@ -587,7 +679,12 @@ def check_collect_acks(ctx, rule: str):
     fi = follow_delegate(repo, repo.fn("Circuit.collect_acks", BCIRC))
     msg = msg_param(fi)
     fl = AckFlow(fi, msg, tables=table_names(repo))
+    fl.repo = repo
     outs = fl.explore(fi.node.body, St(data={"vars": {}, "popped": frozenset()}))
+    if fl.cond_removals:
+        ctx.ob(rule, "Circuit.collect_acks: an acknowledged entry is removed whatever state its future is in", False, fi.where,
+               f"the removal additionally depends on {sorted(set(fl.cond_removals))}: an entry whose awaiter went away "
+               f"(cancelled / timed-out future) is never removed and keeps being retransmitted")
     n = 0
     saw_blocks = False
     for kind, node, st in outs:
@@ -632,11 +729,13 @@ def check_pairing(ctx, rule: str, names=("collect_acks", "resend_unacked")):
         fi = follow_delegate(repo, repo.fn(f"Circuit.{nm}", BCIRC))
         if nm == "resend_unacked":
             fi = resend_core(repo, fi)[0]
-        rem = [st for st in stores(fi.node, into_defs=True) if is_table(repo, st.path)
+        rem = [(fi, st) for st in stores(fi.node, into_defs=True) if is_table(repo, st.path)
                and (st.kind == "delitem" or (st.kind == "mutcall" and st.method in ("pop", "popitem", "clear")))]
+        rem += [(h_, st_h) for _c, h_, st_h, _a, _b in removal_helpers(repo, fi)]
         ctx.ob(rule, f"Circuit.{nm} removes entries from the unacked table", bool(rem), fi.where,
                "no removal left: an acknowledged / exhausted send stays registered and keeps being retransmitted")
-        for st in rem:
+        top = fi
+        for fi, st in rem:
             total += 1
             stmt = enclosing_stmt(st.node)
             ok, why = False, ""
@@ -646,6 +745,10 @@ def check_pairing(ctx, rule: str, names=("collect_acks", "resend_unacked")):
                 and stmt.value is st.node
             if st.kind == "mutcall" and st.method == "pop" and assigned:
                 r = stmt.targets[0].id
+                # path form first: on every path on which the popped entry is present its future gets completed
+                if _pop_completed_on_all_paths(fi, stmt, r):
+                    ctx.ob(rule, f"Circuit.{nm}: removal `{norm(st.node)}` completes the entry's future", True, ctx.w(fi, st.node))
+                    continue
                 base = {dump(e) + str(p) for e, p in facts(stmt, fi.node)}
                 for c in completions:
                     if not (ap(c.func) or "").startswith(f"{r}.completed."):
@@ -660,9 +763,13 @@ def check_pairing(ctx, rule: str, names=("collect_acks", "resend_unacked")):
                 blk, _ = _block_of(stmt)
                 loopvars = [a.target.id for a in ancestors(stmt) if isinstance(a, (ast.For, ast.AsyncFor))
                             and isinstance(a.target, ast.Name)]
+                loopvars += [a.arg for a in fi.node.args.args if a.arg not in ("self", "cls")]   # per-entry helper
+                loopvars += [s_.path for s_ in stores(fi.node, into_defs=False) if s_.kind == "assign" and "." not in s_.path
+                             and s_.value is not None and any(is_table(repo, ap(x)) for x in ast.walk(s_.value)
+                                                              if isinstance(x, (ast.Attribute, ast.Name)))]
                 for c in completions:
                     cs = enclosing_stmt(c)
-                    if blk is not None and any(cs is x for x in blk) and \
+                    if blk is not None and (any(cs is x for x in blk) or _same_or_inner_block(stmt, c)) and \
                             any((ap(c.func) or "").startswith(f"{v}.completed.") for v in loopvars):
                         ok = True
                 why = "entry removed without completing its future in the same block (a discarded pop loses the future)"
@@ -671,6 +778,34 @@ def check_pairing(ctx, rule: str, names=("collect_acks", "resend_unacked")):
             ctx.ob(rule, f"Circuit.{nm}: removal `{norm(st.node)}` completes the entry's future", ok, ctx.w(fi, st.node),
                    "" if ok else why)
     ctx.stats[f"{rule}.unacked-table removals"] = total
+
+
+def _pop_completed_on_all_paths(fi: FuncInfo, pop_stmt, r: str) -> bool:
+    class P(Explorer):
+        def on_stmt(self, s_, st_):
+            if s_ is pop_stmt:
+                self.simple(s_, st_)
+                outs_ = []
+                for present in (True, False):
+                    s2 = st_.copy()
+                    assume(ast.Name(id=r, ctx=ast.Load()), present, s2)
+                    if not present:
+                        assume(ast.Compare(left=ast.Name(id=r, ctx=ast.Load()), ops=[ast.Is()],
+                                           comparators=[ast.Constant(value=None)]), True, s2)
+                    s2.data["pending"] = present
+                    outs_.append(("fall", None, s2))
+                return outs_
+            if not isinstance(s_, (ast.If, ast.For, ast.AsyncFor, ast.While, ast.Try, ast.With, ast.Return, ast.Raise,
+                                   ast.Break, ast.Continue)):
+                for c in calls(s_, into_defs=False):
+                    if call_attr(c) in ("set_result", "set_exception") and (ap(c.func) or "").startswith(f"{r}.completed."):
+                        st_.data["pending"] = False
+            return None
+    bad = False
+    for kind, node, st_ in P().explore(fi.node.body, St(data={"pending": False})):
+        if kind != "raise" and st_.data.get("pending"):
+            bad = True
+    return not bad
 
 
 def _same_or_inner_block(stmt, node) -> bool:
@@ -1246,7 +1381,17 @@ def r2(ctx):
     rp_calls = [(f, c) for f in pm_fns if f != rp for c in find_calls(f.node, rp_name)]
     ctx.ob("C05.R2", "ProxiedCircuit.prepare_message rewrites PacketAck blocks", len(rp_calls) >= 1, pm.where,
            "PacketAck block IDs are forwarded untranslated")
-    is_pa = (lambda e, pol: name_eq_atom(e, "PacketAck") and pol,)
+    def name_consistent(e, pol, want="PacketAck"):
+        """A test of `<msg>.name` against a constant whose known outcome is what it is for a PacketAck
+        (`== "PacketAck"` true, `!= "PacketAck"` false, `== <other>` false ...): it does not narrow the rewrite."""
+        if isinstance(e, ast.Compare) and len(e.ops) == 1 and isinstance(e.ops[0], (ast.Eq, ast.NotEq)):
+            l, r = e.left, e.comparators[0]
+            for a_, b_ in ((l, r), (r, l)):
+                if (ap(a_) or "").endswith(".name") and isinstance(b_, ast.Constant) and isinstance(b_.value, str):
+                    truth = (b_.value == want) if isinstance(e.ops[0], ast.Eq) else (b_.value != want)
+                    return truth == pol
+        return False
+    is_pa = (name_consistent,)
     for f, c in rp_calls:
         bad = chain_guards(repo, pm_map, pm, f, c, extra=is_pa)
         ctx.ob("C05.R2", "ProxiedCircuit.prepare_message: PacketAck rewrite runs for every endpoint-originated PacketAck",
@@ -1588,7 +1733,21 @@ def resend_core(repo, cr: FuncInfo):
         return [n for n in walk(f.node) if isinstance(n, (ast.For, ast.AsyncFor))
                 and any(is_table(repo, ap(x)) for x in ast.walk(n.iter) if isinstance(x, (ast.Attribute, ast.Name)))]
     if table_loops(cr):
-        return cr, [Emit(c, c.args[0] if c.args else None) for c in find_calls(cr.node, "_send_prepared_message", into_defs=False)], []
+        direct = [Emit(c, c.args[0] if c.args else None) for c in find_calls(cr.node, "_send_prepared_message", into_defs=False)]
+        if direct:
+            return cr, direct, [], None
+        # the per-entry work (budget, give-up, resend) may be a helper that is handed the entry: one call of it
+        # is one iteration of the loop, the conditions at the call site still dominate
+        for loop in table_loops(cr):
+            vars_ = {x.id for x in ast.walk(loop.target) if isinstance(x, ast.Name)}
+            for c in calls(ast.Module(body=loop.body, type_ignores=[]), into_defs=False):
+                h = resolve_any_call(repo, cr, c)
+                if h is None or h == cr or not any(isinstance(a, ast.Name) and a.id in vars_ for a in c.args):
+                    continue
+                inner = [Emit(x, x.args[0] if x.args else None) for x in find_calls(h.node, "_send_prepared_message", into_defs=False)]
+                if inner:
+                    return h, inner, [], (cr, c)
+        return cr, [], [], None
     problems = []
     for loop in [n for n in walk(cr.node) if isinstance(n, (ast.For, ast.AsyncFor)) and isinstance(n.iter, ast.Call)]:
         g = resolve_any_call(repo, cr, loop.iter)
@@ -1601,14 +1760,14 @@ def resend_core(repo, cr: FuncInfo):
             problems.append(f"the items handed out by {g.qual} are not all sent through _send_prepared_message")
         if any(isinstance(x, ast.YieldFrom) for x in walk(g.node)):
             raise AnalysisError(f"{g.qual}: `yield from` in the resend generator is not supported")
-        return g, [Emit(y, y.value) for y in walk(g.node) if isinstance(y, ast.Yield)], problems
-    return cr, [], ["no loop over the unacked table (directly or through a generator)"]
+        return g, [Emit(y, y.value) for y in walk(g.node) if isinstance(y, ast.Yield)], problems, None
+    return cr, [], ["no loop over the unacked table (directly or through a generator)"], None
 
 
 def check_resend(ctx, rule):
     repo = ctx.repo
     cr = repo.fn("Circuit.resend_unacked", BCIRC)
-    ru, sends, problems = resend_core(repo, follow_delegate(repo, cr))
+    ru, sends, problems, outer = resend_core(repo, follow_delegate(repo, cr))
     for pr in problems:
         ctx.ob(rule, "Circuit.resend_unacked sends what the resend loop hands out", False, cr.where, pr)
     cfg = CFG(ru.node)
@@ -1633,10 +1792,12 @@ def check_resend(ctx, rule):
     ctx.ob(rule, "Circuit.resend_unacked keeps the packet id", not pid, ru.where, "packet_id is rewritten before the resend")
     loops = [n for n in walk(ru.node) if isinstance(n, (ast.For, ast.AsyncFor))
              and any(is_table(repo, ap(x)) for x in ast.walk(n.iter) if isinstance(x, (ast.Attribute, ast.Name)))]
-    ctx.require(len(loops) == 1, "resend_unacked: expected exactly one loop over the unacked table")
-    loop = loops[0]
-    head = cfg.nodes_for(loop)
-    ctx.require(bool(head), "resend_unacked: loop head not in CFG")
+    if outer is None:
+        ctx.require(len(loops) == 1, "resend_unacked: expected exactly one loop over the unacked table")
+        head = cfg.nodes_for(loops[0])
+        ctx.require(bool(head), "resend_unacked: loop head not in CFG")
+    else:
+        head = [cfg.entry]       # one call of the per-entry helper is one iteration
     send_nodes = [n for c in sends for n in cfg_nodes(cfg, c.node)]
     for c in sends:
         sent = c.args[0] if c.args else None
@@ -1674,8 +1835,11 @@ def check_resend(ctx, rule):
         return out
     for c in sends:
         tests = []
-        for cond in conditions(c.node, ru.node):
-            parts = expand(cond.test)
+        conds = [(cond, ru) for cond in conditions(c.node, ru.node)]
+        if outer is not None:
+            conds += [(cond, outer[0]) for cond in conditions(outer[1], outer[0].node)]
+        for cond, cf in conds:
+            parts = expand(cond.test, 0, cf)
             if any("last_resent" in src(p_) for p_ in parts):
                 tests.append((cond, parts))
         ctx.ob(rule, "Circuit.resend_unacked: a retransmission waits for the time elapsed since last_resent", bool(tests),
@@ -1708,17 +1872,20 @@ def check_resend(ctx, rule):
     reach = cfg.reachable(head, avoid=lambda n: n in dec_nodes)
     ctx.ob(rule, "Circuit.resend_unacked: no retransmission without spending budget",
            not any(n in reach for n in send_nodes), ru.where, "a path resends without decrementing tries_left")
-    removals = [st for st in stores(ru.node) if is_table(repo, st.path)
+    # removal sites of the give-up branch: a del / pop in the loop, or a call of a helper that removes the entry
+    # keyed by the argument (and completes its future)
+    class Rem:
+        def __init__(self, node, key, helper=None, hstore=None, bad=()):
+            self.node, self.key, self.helper, self.hstore, self.bad = node, key, helper, hstore, list(bad)
+    removals = [Rem(st.node, st.target.slice if st.kind == "delitem" else (st.node.args[0] if st.node.args else None))
+                for st in stores(ru.node) if is_table(repo, st.path)
                 and (st.kind == "delitem" or (st.kind == "mutcall" and st.method == "pop"))]
-    exhausted = []
-    for st in removals:
-        dep = any("tries_left" in src(e) for e, pol in facts(st.node, ru.node))
-        if dep:
-            exhausted.append(st)
+    removals += [Rem(c_, arg, h_, st_h, bad) for c_, h_, st_h, arg, bad in removal_helpers(repo, ru)]
+    exhausted = [r_ for r_ in removals if any("tries_left" in src(e) for e, pol in facts(r_.node, ru.node))]
     ctx.ob(rule, "Circuit.resend_unacked gives up (removes the entry) when the budget is spent", len(exhausted) >= 1,
            ru.where, "no removal guarded by tries_left: the packet is retransmitted forever or its future never fails")
     for st in exhausted:
-        key = st.target.slice if st.kind == "delitem" else (st.node.args[0] if st.node.args else None)
+        key = st.key
         ek = entry_key(repo, ru, key)
         okk = ek is not None and ek[0].endswith(".direction") and ek[1].endswith(".packet_id")
         ctx.ob(rule, "Circuit.resend_unacked: give-up removes the (direction, packet_id) key of the entry", okk,
@@ -1728,15 +1895,30 @@ def check_resend(ctx, rule):
         ctx.ob(rule, "Circuit.resend_unacked: nothing is sent for an entry after giving up on it",
                not any(n in reach2 for n in send_nodes), ctx.w(ru, st.node),
                "the exhausted entry is still retransmitted after its completion signal fired")
-        exc = [c for c in find_calls(ru.node, "set_exception") if _in_same_block(enclosing_stmt(st.node), c)]
-        # the removal comes first: completing the future can raise (cancelled / already done future), and then the
-        # entry must already be gone
-        comp_nodes = [n for c in exc for n in cfg_nodes(cfg, c)]
-        after_comp = cfg.reachable(comp_nodes, avoid=lambda n: n in head)
+        if st.helper is None:
+            exc = [c for c in find_calls(ru.node, "set_exception") if _in_same_block(enclosing_stmt(st.node), c)]
+            # the removal comes first: completing the future can raise (cancelled / already done future), and then
+            # the entry must already be gone
+            comp_nodes = [n for c in exc for n in cfg_nodes(cfg, c)]
+            after_comp = cfg.reachable(comp_nodes, avoid=lambda n: n in head)
+            ordered = not any(n in after_comp for n in rn)
+            uncond = True
+            why_c = ""
+        else:
+            hcfg = CFG(st.helper.node)
+            exc = find_calls(st.helper.node, "set_exception")
+            hrn = hcfg.nodes_for(enclosing_stmt(st.hstore.node))
+            comp_nodes = [n for c in exc + find_calls(st.helper.node, "set_result") for n in cfg_nodes(hcfg, c)]
+            ordered = not any(n in hcfg.reachable(comp_nodes) for n in hrn)
+            uncond = not st.bad
+            why_c = f"the removal in {st.helper.qual} additionally depends on {st.bad}"
         ctx.ob(rule, "Circuit.resend_unacked: the exhausted entry is removed before its future is completed",
-               not any(n in after_comp for n in rn), ctx.w(ru, st.node),
+               ordered, ctx.w(ru, st.node),
                "set_exception runs before the removal: on a cancelled / already completed future it raises, the entry "
                "stays in the table with a spent budget and is retransmitted forever")
+        ctx.ob(rule, "Circuit.resend_unacked: the exhausted entry is removed whatever state its future is in", uncond,
+               ctx.w(ru, st.node), why_c + ": an entry whose awaiter was cancelled is never removed and is "
+               "retransmitted forever")
         ctx.ob(rule, "Circuit.resend_unacked: budget exhaustion fails the send (set_exception)", len(exc) >= 1,
                ctx.w(ru, st.node), "the completion future is not failed when the budget is spent")
 
@@ -1748,6 +1930,25 @@ def _in_same_block(stmt, node) -> bool:
 
 # ============================================================================ R5 collect before forwarding
 
+def parsed_message_vars(repo, fi: FuncInfo) -> set:
+    """Locals of fi that hold the message decoded from this datagram: assigned from `*.deserialize(...)`, or
+    from a helper of the own class that returns such a local."""
+    out = set()
+    for st in stores(fi.node, into_defs=False):
+        if st.kind != "assign" or not isinstance(st.value, ast.Call) or not ap(st.target):
+            continue
+        if call_attr(st.value) == "deserialize":
+            out.add(ap(st.target))
+            continue
+        h = resolve_method_call(repo, fi, st.value)
+        if h is not None and h != fi:
+            inner = parsed_message_vars(repo, h)
+            rets = [r for r in walk(h.node) if isinstance(r, ast.Return) and r.value is not None]
+            if rets and all(ap(r.value) in inner for r in rets):
+                out.add(ap(st.target))
+    return out
+
+
 def r5(ctx):
     repo = ctx.repo
     ctx.rule("C05.R5", "ack collection precedes forwarding: every path of handle_proxied_packet to a handler, the "
@@ -1757,8 +1958,7 @@ def r5(ctx):
     collects = find_calls(hp.node, "collect_acks", into_defs=False)
     ctx.ob("C05.R5", "handle_proxied_packet collects acks", len(collects) >= 1, hp.where,
            "acks for proxy-injected packets are never consumed by the proxy")
-    msgs = {ap(st.target) for st in stores(hp.node) if st.kind == "assign" and isinstance(st.value, ast.Call)
-            and call_attr(st.value) == "deserialize"}
+    msgs = parsed_message_vars(repo, hp)
     for c in collects:
         ctx.ob("C05.R5", "collect_acks receives the parsed message of this datagram",
                bool(c.args) and ap(c.args[0]) in msgs, ctx.w(hp, c), f"argument {norm(c.args[0]) if c.args else None}")
@@ -1767,18 +1967,22 @@ def r5(ctx):
                recv == f"{lookup_var(hp, 'region_by_circuit_addr')}.circuit", ctx.w(hp, c), f"receiver {recv}")
     cn = [n for c in collects for n in cfg_nodes(cfg, c)]
     reach = cfg.reachable([cfg.entry], avoid=lambda n: n in cn)
-    targets = []
-    for c in calls(hp.node, into_defs=False):
+    def is_target(c):
         a = call_attr(c)
         p = ap(c.func) or ""
-        if (a == "handle" and p.endswith("message_handler.handle")) or a in ("handle_lludp_message", "drop_message") \
-                or (a in ("send", "send_reliable") and p.endswith("circuit." + a)):
-            targets.append(c)
+        return (a == "handle" and p.endswith("message_handler.handle")) or a in ("handle_lludp_message", "drop_message") \
+            or (a in ("send", "send_reliable") and p.endswith("circuit." + a))
+    # (node in handle_proxied_packet, the dispatch call itself): stage helpers of the protocol class are followed
+    targets = [(c, c) for c in calls(hp.node, into_defs=False) if is_target(c)]
+    for hc in calls(hp.node, into_defs=False):
+        h = resolve_method_call(repo, hp, hc)
+        if h is not None and h != hp:
+            targets.extend((hc, c) for c in calls(h.node, into_defs=False) if is_target(c))
     ctx.floor("C05.R5", "forwarding/dispatch sites", len(targets), 3)
-    for c in targets:
-        bad = [n for n in cfg_nodes(cfg, c) if n in reach]
+    for at, c in targets:
+        bad = [n for n in cfg_nodes(cfg, at) if n in reach]
         ctx.ob("C05.R5", f"handle_proxied_packet: {norm(c)} is preceded by collect_acks on every path", not bad,
-               ctx.w(hp, c), "reachable without collecting the datagram's acks (prepare_message strips acks for "
+               ctx.w(hp, at), "reachable without collecting the datagram's acks (prepare_message strips acks for "
                "injected packets afterwards, so they are lost)")
 
 
@@ -1801,7 +2005,10 @@ def r6(ctx):
     n = 0
     for q in ("InjectionTracker.get_original_id", "InjectionTracker.get_effective_id"):
         fi0 = repo.fn(q)
-        found = [(f, loop) for f, loop in loops_over([fi0], ".injections")]
+        def is_inj(f_, e_):
+            return (resolve_path(f_.node, _iter_base(e_)) or "").endswith(".injections")
+        found = [(fi0, loop) for loop in walk(fi0.node, into_defs=True)
+                 if isinstance(loop, (ast.For, ast.AsyncFor)) and is_inj(fi0, loop.iter)]
         # the walk may live in a helper (method or module-level function) that is handed self.injections
         from .common import module_funcs_reachable
         for g in module_funcs_reachable(repo, fi0, depth=2):
@@ -1869,7 +2076,7 @@ def r6(ctx):
                 if enumerated:
                     order_it = it.args[0]
                 base = ap(_iter_base(order_it)) or ""
-                if not (base.endswith(".injections") or any(f is g_fn and (ap(_iter_base(l.iter)) or "") == base for f, l in found)):
+                if not (is_inj(g_fn, order_it) or any(f is g_fn and (ap(_iter_base(l.iter)) or "") == base for f, l in found)):
                     continue
                 if len(comp.generators) != 1:
                     raise AnalysisError(f"{q}: nested comprehension over the injections")
